@@ -111,7 +111,7 @@ def run(ctx):
     prog = ctx.prog
     ce = ConstEval(prog)
     spec = _load_spec()
-    ctx.clauses_decided = ["R1 one-based -> zero-based", "R2 column layouts", "R3 chemists' -> physicists'", "R4 triangular / block unpacking", "R5 permutation literals", "R6 labelled records attached by label", "R7 index maps of reshaping expressions (symbolic evaluation)", "R8 no placement by narrow counter fields", "R9 VASP coordinate-mode switch", "R10 deferred application of section data", "R11 Molden tag meaning (finite-domain evaluation)"]
+    ctx.clauses_decided = ["R1 one-based -> zero-based", "R2 column layouts", "R3 chemists' -> physicists'", "R4 triangular / block unpacking", "R5 permutation literals", "R6 labelled records attached by label", "R7 index maps of reshaping expressions (symbolic evaluation)", "R8 no placement by narrow counter fields", "R9 VASP coordinate-mode switch", "R10 deferred application of section data", "R11 Molden tag meaning (finite-domain evaluation)", "R12 block precedence in log scans"]
     ctx.clauses_declined = ["free-format and log-file parsers beyond R1/R3/R4/R5", "numerical accuracy of parsed values", "Fortran D exponents"]
 
     # ------------------------------------------------------------------ R2
@@ -576,6 +576,8 @@ def run(ctx):
 
     ctx.rule("R11", "Molden pure/Cartesian tag lines are read with the meaning the format assigns to them", "a [5D10F] or [7F] file gets f (or d) shells of the wrong size: the coefficients are misassigned or the file is rejected")
     check_molden_reader_tags(ctx, ce, "R11")
+    ctx.rule("R12", "repeated blocks of a log: all result slots of one scan follow the same precedence", "coordinates of the first step are returned with the energy of the last step of an optimisation / multi-step log")
+    check_block_precedence(ctx, "R12")
 
 
 NARROW_POSITIVE = '''
@@ -698,3 +700,81 @@ def check_narrow_counters(ctx):
     if not hits:
         ctx.ok("R8", f"{nfun} loader functions: no array index or loop bound derives from an integer field of <= 3 characters (positive control: {nb} seeded uses flagged, sequential twin silent)", "iodata/formats/")
     ctx.floor("R8", nfun, 135, "loader-reachable functions")
+
+
+# first-wins slots that are intended (confirmed by reading the loader): (function, key) -> reason
+FIRST_WINS_OK = {
+    ("iodata.formats.qchemlog.load_qchemlog_low", "run_type"): "one $rem block describes the job; later $rem blocks of multi-step jobs must not overwrite it (comment in the source)",
+    ("iodata.formats.qchemlog.load_qchemlog_low", "atcoords"): "the first orientation is the supersystem; later ones are the EDA fragments, collected separately (comment in the source)",
+}
+
+
+def check_block_precedence(ctx, rid):
+    """In a loader that scans a log for repeated blocks, all result slots follow the same precedence.
+
+    Log files of optimisations and multi-step jobs repeat their blocks; a loader keeps either the last or the first
+    occurrence.  A loop in which most slots are overwritten by every occurrence (last wins) while one slot keeps its
+    first value (`setdefault` with a computed value, or a store guarded by `key not in result`) returns data from
+    different steps of the job: coordinates that do not belong to the energy.  Intended first-wins slots are frozen in
+    FIRST_WINS_OK with their reason."""
+    prog = ctx.prog
+    nloop = 0
+    for f in prog.package_funcs():
+        if not f.module.name.startswith("iodata.formats.") or f.name.startswith(("dump", "_dump", "prepare")):
+            continue
+        for loop in [n for n in f.own_nodes() if isinstance(n, (ast.While, ast.For))]:
+            if not any(isinstance(x, ast.Call) and isinstance(x.func, ast.Name) and x.func.id == "next" for x in ast.walk(loop)) and not (isinstance(loop, ast.For) and isinstance(loop.iter, ast.Name)):
+                continue
+            plain = {}
+            first = []
+            pm = prog.parents(f)
+            for st in ast.walk(loop):
+                if isinstance(st, ast.Assign):
+                    flat = []
+                    for t in st.targets:
+                        flat.extend(t.elts if isinstance(t, (ast.Tuple, ast.List)) else [t])
+                    for t in flat:
+                        if isinstance(t, ast.Subscript) and isinstance(t.value, ast.Name) and isinstance(t.slice, ast.Constant) and isinstance(t.slice.value, str):
+                            guard = _not_in_guard(pm, st, t.value.id)
+                            empty_container = isinstance(st.value, (ast.Dict, ast.List)) and not (getattr(st.value, "keys", None) or getattr(st.value, "elts", None))
+                            if guard is not None and empty_container:
+                                pass  # initialisation of an accumulator, filled by every occurrence
+                            elif guard is not None:
+                                first.append((t.value.id, guard, st))
+                            else:
+                                plain.setdefault(t.value.id, set()).add(t.slice.value)
+                elif isinstance(st, ast.Expr) and isinstance(st.value, ast.Call) and isinstance(st.value.func, ast.Attribute) and isinstance(st.value.func.value, ast.Name):
+                    c = st.value
+                    d = c.func.value.id
+                    if c.func.attr == "setdefault" and len(c.args) == 2 and isinstance(c.args[0], ast.Constant) and not (isinstance(c.args[1], (ast.Dict, ast.List)) and not (getattr(c.args[1], "keys", None) or getattr(c.args[1], "elts", None))):
+                        first.append((d, c.args[0].value, st))
+                    elif c.func.attr == "update":
+                        guard = _not_in_guard(pm, st, d)
+                        if guard is not None:
+                            first.append((d, guard, st))
+            for d, keys in plain.items():
+                if len(keys) < 3:
+                    continue
+                nloop += 1
+                bad = [(k, st) for dd, k, st in first if dd == d and (f.qualname, k) not in FIRST_WINS_OK]
+                okx = [(k, st) for dd, k, st in first if dd == d and (f.qualname, k) in FIRST_WINS_OK]
+                for k, st in bad:
+                    ctx.violate(rid, f"{f.name}: `{d}[{k!r}]` keeps the first occurrence of its block while {len(keys)} other slots of the same scan ({', '.join(sorted(keys)[:4])}, ...) are overwritten by every later occurrence: for a multi-step or optimisation log the returned values come from different steps", f, st)
+                if not bad:
+                    ctx.ok(rid, f"{f.name}: {len(keys)} slots of `{d}` follow last-occurrence-wins" + (f"; first-wins by design: {', '.join(k for k, _ in okx)}" if okx else ""), f"{f.module.relpath}:{loop.lineno}")
+    ctx.floor(rid, nloop, 3, "scan loops with at least three result slots")
+
+
+def _not_in_guard(pm, st, dname):
+    """The key K of an enclosing `... and K not in <dname>` test (an elif branch taken only the first time), if any."""
+    cur = st
+    while id(cur) in pm:
+        par = pm[id(cur)]
+        if isinstance(par, ast.If) and cur in par.body:
+            for x in ast.walk(par.test):
+                if isinstance(x, ast.Compare) and len(x.ops) == 1 and isinstance(x.ops[0], ast.NotIn) and isinstance(x.left, ast.Constant) and isinstance(x.comparators[0], ast.Name) and x.comparators[0].id == dname:
+                    return x.left.value
+        if isinstance(par, (ast.While, ast.For, ast.FunctionDef)):
+            break
+        cur = par
+    return None
